@@ -166,13 +166,16 @@ def replay(args):
                 n = len(post['ids'][o])
                 if arg == 'circ':
                     ob.circular_photometry(3.0, name='circ')
+                elif arg == 'kron':
+                    ob.kron_photometry((2.5, 6.0), name='kron2')        # a larger minimum radius than the catalog's own Kron parameters
                 else:
                     val = np.arange(n, dtype=float) + 100.0 if not post['scalar'][o] else 100.0
                     ob.add_extra_property(arg, val)
             elif op == 'remove_extra':
                 ob = objs[o]
-                if arg == 'circ':
-                    ob.remove_extra_properties(['circ_flux', 'circ_fluxerr'])
+                if arg in ('circ', 'kron'):
+                    nm2 = 'kron2' if arg == 'kron' else arg
+                    ob.remove_extra_properties([nm2 + '_flux', nm2 + '_fluxerr'])
                 else:
                     ob.remove_extra_property(arg)
         except Exception as e:  # noqa
@@ -185,7 +188,7 @@ def replay(args):
             for name, ob in objs.items():
                 exp = []
                 for nm in post['reg'][name]:
-                    exp += ['circ_flux', 'circ_fluxerr'] if nm == 'circ' else [nm]
+                    exp += [('kron2' if nm == 'kron' else nm) + '_flux', ('kron2' if nm == 'kron' else nm) + '_fluxerr'] if nm in ('circ', 'kron') else [nm]
                 got = list(ob.extra_properties)
                 if got != exp:
                     out.append(('independent_extra_registry', dict(sig, on=name), {'history': ops, 'got': got, 'expected': exp}))
@@ -212,7 +215,7 @@ def run(ctx):
     bad = ctx.mc('LazyCatalog', 'MC_LazyCatalog_pinned.cfg', workers=2, expect_hold=False, check_ok=False)
     if 'Independent' not in bad.violated:
         raise core.Machinery('vacuity guard: shared-registry variant not rejected')
-    g = ctx.tlc('LazyCatalog', core.make_cfg(ctx, 'GEN_LazyCatalog.cfg', MaxDepth=(3 if q else 4), ExtraNames='{"e1", "circ"}'), part='GEN:LazyCatalog', workers=1, timeout=1800)
+    g = ctx.tlc('LazyCatalog', core.make_cfg(ctx, 'GEN_LazyCatalog.cfg', MaxDepth=(3 if q else 4), ExtraNames='{"e1", "circ", "kron"}'), part='GEN:LazyCatalog', workers=1, timeout=1800)
     hists = [rec['v'] for rec in g.records if rec.get('_tag') == 'GEN']
     hists = [h for h in hists if any(s['op'] != 'eval' for s in h)]
     if not q:
